@@ -49,6 +49,12 @@ var wrappers = []wrapper{
 		e := fmt.Sprintf("e%d", g.id())
 		return []ir.Stmt{ir.Try{Body: h, CatchVar: e, Catch: []ir.Stmt{ir.V(ir.Var{Name: e}), g.p()}, HasFinally: true, Finally: []ir.Stmt{g.p()}}}
 	}},
+	// the catch block re-throws what it caught: the error goes on to the next
+	// enclosing try / the host (whatever was caught, a throw statement raises)
+	{name: "try-rethrow", build: func(g *gen, h []ir.Stmt) []ir.Stmt {
+		e := fmt.Sprintf("e%d", g.id())
+		return []ir.Stmt{ir.Try{Body: h, CatchVar: e, Catch: []ir.Stmt{g.p(), ir.Throw{X: ir.Var{Name: e}}}}}
+	}},
 	// ---- the hole is a catch block ----
 	{name: "catch-var", build: func(g *gen, h []ir.Stmt) []ir.Stmt {
 		k := g.id()
@@ -326,7 +332,7 @@ func pathName(sp Spec) string {
 // execution registers the function the name denotes THEN (callee "as evaluated
 // at the defer statement"). ----
 
-var rebindForms = []string{"callback-parameter", "local-closure", "recursion-local-function", "loop-over-closures", "variable-rebound-in-loop", "loop-over-callbacks-in-function"}
+var rebindForms = []string{"callback-parameter", "local-closure", "recursion-local-function", "loop-over-closures", "variable-rebound-in-loop", "loop-over-callbacks-in-function", "recursive-function-called-again"}
 
 var rebindExits = []string{"normal", "throw", "return"}
 
@@ -407,6 +413,21 @@ func rebindPayload(sp Spec) func(g *gen) []ir.Stmt {
 			loop := ir.ForIn{Vars: []string{"cb"}, Coll: v("cbs"), Body: []ir.Stmt{ir.Defer{Call: ir.CallNamed("cb", ir.I(2))}}}
 			body := cat([]ir.Stmt{g.p(), loop}, exit(), []ir.Stmt{g.p(), ir.Return{Vals: []ir.Expr{ir.I(9)}}})
 			return cat(defs, []ir.Stmt{ir.Func(run, []string{"cbs"}, body), guarded(ir.CallNamed(run, ir.List{Elems: fns}))})
+		case 6:
+			// a recursive function with a defer per invocation, called again after it has
+			// finished: nested invocations of ONE function value are live at once, and an
+			// earlier call has left behind whatever an invocation leaves behind
+			rec := name("rec", 0)
+			body := cat([]ir.Stmt{
+				ir.Defer{Call: ir.Show{Args: []ir.Expr{ir.S("exit"), v("n")}}},
+				ir.Defer{Call: ir.Show{Args: []ir.Expr{ir.S("exit2"), v("n")}}},
+				ir.If{Cond: ir.Bin{Op: ">", L: v("n"), R: ir.I(0)}, Then: []ir.Stmt{ir.ExprStmt{X: ir.CallNamed(rec, ir.Bin{Op: "-", L: v("n"), R: ir.I(1)})}}, HasElse: true, Else: exit()}},
+				[]ir.Stmt{g.p(), ir.Return{Vals: []ir.Expr{v("n")}}})
+			out := []ir.Stmt{ir.Func(rec, []string{"n"}, body)}
+			for i := 0; i < n; i++ {
+				out = append(out, guarded(ir.CallNamed(rec, ir.I(2))))
+			}
+			return out
 		}
 		panic("bad rebind form")
 	}
